@@ -84,6 +84,9 @@ type Mode struct {
 	// TTL: access-token rows are evicted once their own expiry has passed (a TTL index / janitor), before the next call is
 	// served. Only sound for sequential use (the maps are touched without the reference store's locks).
 	TTL bool
+	// StrictTx: like database/sql, Commit and Rollback only work with the context BeginTX returned; called with any other
+	// context they fail ("no transaction in context") and the transaction stays open.
+	StrictTx bool
 }
 
 // IStore wraps the reference MemoryStore.
@@ -948,7 +951,16 @@ func (s TxStore) Commit(ctx context.Context) error {
 	c, e := s.enter(ctx, "Commit", nil)
 	s.mu.Lock()
 	open := s.txOpen
+	foreign := s.Mode.StrictTx && open && ctx.Value(txKey) != s.txID
+	if foreign {
+		s.TxEvents = append(s.TxEvents, "commit-with-foreign-context")
+	}
 	s.mu.Unlock()
+	if foreign && e == nil {
+		err := errors.New("commit: no transaction in this context")
+		s.leave(c, err)
+		return s.w(err)
+	}
 	if e != nil {
 		// a failed commit: the database discards the transaction
 		s.mu.Lock()
@@ -981,7 +993,16 @@ func (s TxStore) Rollback(ctx context.Context) error {
 	c, e := s.enter(ctx, "Rollback", nil)
 	s.mu.Lock()
 	open := s.txOpen
+	foreign := s.Mode.StrictTx && open && ctx.Value(txKey) != s.txID
+	if foreign {
+		s.TxEvents = append(s.TxEvents, "rollback-with-foreign-context")
+	}
 	s.mu.Unlock()
+	if foreign && e == nil {
+		err := errors.New("rollback: no transaction in this context")
+		s.leave(c, err)
+		return s.w(err)
+	}
 	// whatever the driver reports, the database ends the transaction without applying it
 	if open && s.txSnap != nil {
 		s.Restore(s.txSnap)
